@@ -448,6 +448,11 @@ class ExprMixin(CallMixin):
         if isinstance(lst, PyList):
             if self.loop_ctx and lst.created_in is not None and getattr(lst, "_loop_depth", 0) < len(self.loop_ctx):
                 over = self.loop_ctx[-1]
+                if len(getattr(self, "_round_tags", ())) == len(self.loop_ctx):
+                    metas = lst.__dict__.setdefault("_part_meta", {})
+                    meta = metas.setdefault(id(over), {"hits": 0, "tags": {}})
+                    meta["hits"] += 1
+                    meta["tags"].setdefault(repr(item), set()).add(self._round_tags[-1])
                 for i, (o, per) in enumerate(lst.loop_parts):
                     if o is over:
                         if not any(repr(item) == repr(x) for x in per):
@@ -726,6 +731,7 @@ class ExprMixin(CallMixin):
             if all(isinstance(x, Const) for x in idx.args) and lo.v is None and hi.v is None and st.v == -1:
                 rvw = self.reversed_view(base)
                 if rvw is not None:
+                    rvw.created_in = self._frame_id()  # type: ignore[attr-defined]  # a slice is a new list
                     return rvw
             if isinstance(base, (PyList, PyTuple)) and not getattr(base, "loop_parts", None) and all(isinstance(x, Const) for x in idx.args):
                 items = base.items[slice(lo.v, hi.v, st.v)]
